@@ -46,7 +46,7 @@ def match_cases3d(draw, tier="quick", ties=False, contest=False):
 def match_cases2d(draw, tier="quick", ties=False):
     big = tier == "thorough"
     mg = draw(st.sampled_from([4, 8, 20] if big else [3, 6, 10]))
-    sc = draw(GEN.scenes2d(max_gt=mg, max_est=mg, ties=ties))
+    sc = draw(GEN.scenes2d(max_gt=mg, max_est=mg, ties=ties, fam=draw(st.sampled_from(["autoware", "autoware", "tl"]))))
     mode = draw(GEN.modes2d())
     n = len(sc["targets"])
     radii = None
@@ -86,7 +86,7 @@ def call_matcher(ctx, d, est, gt, tr):
             evaluation_task=D.task(d["task"]),
             estimated_objects=est,
             ground_truth_objects=gt,
-            target_labels=D.labels(d["targets"]),
+            target_labels=D.labels(d["targets"], d.get("fam", "autoware")),
             matching_label_policy=D.policy(d["policy"]),
             matching_mode=D.mode(d["mode"]),
             matchable_thresholds=d["radii"],
